@@ -396,9 +396,11 @@ on_map (int kind, void *addr, size_t len)
 }
 
 /* ---- operations ----------------------------------------------------------------- */
-enum { O_RN, O_R, O_RA, O_GENSALT_RN, O_GENSALT_RN_NULL, O_GENSALT_RA, O_CHECKSALT, O_PREFERRED, O_CRYPT_STATIC, O_GENSALT_STATIC };
+enum { O_RN, O_R, O_RA, O_GENSALT_RN, O_GENSALT_RN_NULL, O_GENSALT_RA, O_CHECKSALT, O_PREFERRED, O_CRYPT_STATIC, O_GENSALT_STATIC, O_RN_LONG, O_DES_R };
 struct opdef { int kind; int m; const char *setting; unsigned long count; char name[64]; };
-static struct opdef ops[64];
+static struct opdef ops[96];
+static void (*p_setkey_r) (const char *, struct crypt_data *);
+static void (*p_encrypt_r) (char *, int, struct crypt_data *);
 static int nops, ncanary0;
 
 struct tctx
@@ -433,6 +435,36 @@ run_op (struct tctx *c, int k)
   switch (o->kind)
     {
     case O_RN: r = crypt_rn (P, o->setting, c->obj, sizeof *c->obj); break;
+    case O_RN_LONG:
+      {
+        /* phrases beyond every internal block size (HMAC key blocks of 64 and 128 bytes, bcrypt's 72, bigcrypt's 128), different per thread */
+        char lp[200];
+        size_t n = (size_t) (100 + 33 * c->id);
+        for (size_t i = 0; i < n; i++)
+          lp[i] = (char) ('a' + (i * 7 + (size_t) c->id * 3) % 26);
+        lp[n] = 0;
+        r = crypt_rn (lp, o->setting, c->obj, sizeof *c->obj);
+        break;
+      }
+    case O_DES_R:
+      {
+        /* the obsolete re-entrant DES pair on the thread's own object: key and block differ per thread; count = edflag */
+        static const unsigned char keys[MAXT][8] = { { 0x13, 0x34, 0x57, 0x79, 0x9b, 0xbc, 0xdf, 0xf1 }, { 0xfe, 0xdc, 0xba, 0x98, 0x76, 0x54, 0x32, 0x10 }, { 0x01, 0x01, 0x01, 0x01, 0x01, 0x01, 0x01, 0x01 } };
+        static const unsigned char blks[MAXT][8] = { { 0x01, 0x23, 0x45, 0x67, 0x89, 0xab, 0xcd, 0xef }, { 0xff, 0x00, 0xaa, 0x55, 0x0f, 0xf0, 0x33, 0xcc }, { 0x80, 0, 0, 0, 0, 0, 0, 0x01 } };
+        char kv[64], bv[64];
+        for (int i = 0; i < 64; i++)
+          {
+            kv[i] = (char) ((keys[c->id][i / 8] >> (7 - i % 8)) & 1);
+            bv[i] = (char) ((blks[c->id][i / 8] >> (7 - i % 8)) & 1);
+          }
+        p_setkey_r (kv, c->obj);
+        p_encrypt_r (bv, (int) o->count, c->obj);
+        for (int i = 0; i < 64; i++)
+          c->res[k][i] = (char) ('0' + bv[i]);
+        c->res[k][64] = 0;
+        c->isnull[k] = 0;
+        return;
+      }
     case O_R: r = crypt_r (P, o->setting, c->obj); break;
     case O_RA: r = crypt_ra (P, o->setting, &c->ra, &c->ra_size); break;
     case O_GENSALT_RN: r = crypt_gensalt_rn (o->setting, o->count, (const char *) c->rb, 16 + 16 * (c->id & 1), c->gbuf, CRYPT_GENSALT_OUTPUT_SIZE); break;
@@ -546,8 +578,8 @@ execute (const unsigned char *pfx, int plen)
 }
 
 /* ---- explorer ------------------------------------------------------------------- */
-static char solo[64][MAXT][CRYPT_OUTPUT_SIZE];
-static int solo_null[64][MAXT];
+static char solo[96][MAXT][CRYPT_OUTPUT_SIZE];
+static int solo_null[96][MAXT];
 static long schedules, max_points, configs_with_shared_writes;
 static char cj[900];
 
@@ -777,6 +809,19 @@ localtime (const time_t *t)
 static void
 mkops (void)
 {
+#ifdef VH_C17_SCHED
+  /* C17's schedule job: the alphabet is the obsolete re-entrant DES pair (encrypt, decrypt) next to the DES-based hashes */
+  ops[nops++] = (struct opdef) { O_DES_R, M_DES, 0, 0, "setkey_r;encrypt_r(own object, encrypt)" };
+  ops[nops++] = (struct opdef) { O_DES_R, M_DES, 0, 1, "setkey_r;encrypt_r(own object, decrypt)" };
+  ops[nops++] = (struct opdef) { O_RN, M_DES, vh_cheap[M_DES][0], 0, "crypt_rn(descrypt)" };
+  ops[nops++] = (struct opdef) { O_RN, M_BIG, vh_cheap[M_BIG][0], 0, "crypt_rn(bigcrypt)" };
+  ops[nops++] = (struct opdef) { O_RN, M_BSDI, vh_cheap[M_BSDI][0], 0, "crypt_rn(bsdicrypt)" };
+  ops[nops++] = (struct opdef) { O_GENSALT_RN, -1, "_", 0, "crypt_gensalt_rn(_)" };
+  ncanary0 = nops;
+  ops[nops++] = (struct opdef) { O_CRYPT_STATIC, M_MD5, vh_cheap[M_MD5][0], 0, "crypt(md5crypt) [MT-unsafe canary]" };
+  ops[nops++] = (struct opdef) { O_GENSALT_STATIC, -1, "$1$", 0, "crypt_gensalt($1$) [MT-unsafe canary]" };
+  return;
+#endif
   for (int m = 0; m < M_COUNT; m++)
     {
       ops[nops] = (struct opdef) { O_RN, m, (m == M_YESCRYPT || m == M_GOST || m == M_SCRYPT) ? vh_cheap[m][1] : vh_cheap[m][0], 0, "" };
@@ -810,6 +855,16 @@ mkops (void)
   nops++;
   ops[nops] = (struct opdef) { O_PREFERRED, -1, 0, 0, "crypt_preferred_method()" };
   nops++;
+  {
+    static const int lm[] = { M_YESCRYPT, M_GOST, M_SCRYPT, M_SHA1, M_BCRYPT_B, M_SHA512, M_BIG };
+    for (unsigned i = 0; i < sizeof lm / sizeof *lm; i++)
+      {
+        int m = lm[i];
+        ops[nops] = (struct opdef) { O_RN_LONG, m, (m == M_YESCRYPT || m == M_GOST || m == M_SCRYPT) ? vh_cheap[m][1] : vh_cheap[m][0], 0, "" };
+        snprintf (ops[nops].name, sizeof ops[nops].name, "crypt_rn(%s, 100..166-byte phrase)", vh_methods[m].name);
+        nops++;
+      }
+  }
   if (vh_thorough)
     {
       /* a working area of 32 MiB: the only size class with its own mapping strategy (huge-page attempt, fallback) */
@@ -933,6 +988,16 @@ main (int argc, char **argv)
       }
     if (f)
       pclose (f);
+  }
+  {
+    Dl_info li;
+    void *lh = dladdr ((void *) crypt_rn, &li) ? dlopen (li.dli_fname, RTLD_NOW | RTLD_NOLOAD) : 0;
+    p_setkey_r = lh ? (void (*)(const char *, struct crypt_data *)) dlvsym (lh, "setkey_r", "GLIBC_2.2.5") : 0;
+    p_encrypt_r = lh ? (void (*)(char *, int, struct crypt_data *)) dlvsym (lh, "encrypt_r", "GLIBC_2.2.5") : 0;
+#ifdef VH_C17_SCHED
+    if (!p_setkey_r || !p_encrypt_r)
+      vh_internal ("obsolete DES API not exported by the library build");
+#endif
   }
   mkops ();
   for (int t = 0; t < MAXT; t++)
@@ -1060,7 +1125,7 @@ main (int argc, char **argv)
               }
       for (int a = 0; a < 32 && !vh_expired (); a += 2)
         for (int b = 1; b < 32; b += 2)
-          if (vh_mine (idx++))
+          if (a < ncanary0 && b < ncanary0 && vh_mine (idx++))
             {
               int sel[MAXT][2] = { {a, b}, {b, a}, {0, 0} };
               snprintf (cfg, sizeof cfg, "2x2:%d:%d:%d:%d", a, b, b, a);
